@@ -1,9 +1,9 @@
 (* C17 trie part, iteration (6): id uniqueness in every reachable state; qb_map_foreach as a step of a history. *)
-From Coq Require Import List ZArith Bool Arith Lia.
+From Coq Require Import List ZArith Bool Arith Lia Sorted.
 Import ListNotations.
 Require Import Verif.gen.Consts_trie Verif.MapTrieModel Verif.MapTrieSpec Verif.MapTrieProofs Verif.MapTrieProofs2
                Verif.MapTrieProofs3 Verif.MapTrieIter Verif.MapTrieIter2 Verif.MapTrieIds Verif.MapTrieIter3
-               Verif.MapTrieIter4 Verif.MapTrieIter5.
+               Verif.MapTrieIter4 Verif.MapTrieIter5 Verif.MapTrieOrder.
 
 Definition ids_r (r : tnode) (next : nat) : Prop :=
   (forall id, cnt_t r id <= 1) /\ (forall id, next <= id -> cnt_t r id = 0) /\ n_id (t_info r) = 0 /\ 1 <= next.
@@ -133,10 +133,11 @@ Inductive iop := IH (h : hop) | IForeach (stop : nat).
 Definition iop_op (o : iop) : op := match o with IH h => hop_op h | IForeach s => OForeach s end.
 Definition iop_valid (o : iop) : Prop := match o with IH h => hop_valid h | IForeach _ => True end.
 
-(* L enumerates the dictionary d: every entry once *)
+(* L enumerates the dictionary d: every entry once, keys strictly ascending in the trie's order klt
+   (the order of the signed char values, a proper prefix first: MapTrieOrder.v) *)
 Definition enum (d : dict) (L : list (key * val)) : Prop :=
   NoDup (map fst L) /\ (forall k v, In (k, v) L -> d_get d k = Some v) /\
-  (forall k v, k <> [] -> d_get d k = Some v -> In (k, v) L).
+  (forall k v, k <> [] -> d_get d k = Some v -> In (k, v) L) /\ StronglySorted klt (map fst L).
 
 Definition visit_of (kv : key * val) : ev := EVisit (Some (fst kv)) (Some (snd kv)).
 
@@ -159,7 +160,7 @@ Proof.
   intros t d HI IO.
   assert (S : forall i, In i (al_t (t_root t)) -> exists k v, n_key i = Some k /\ n_val i = Some v /\ d_get d k = Some v).
   { intros. eapply al_sound; eauto. }
-  split; [split; [|split]|].
+  split; [split; [|split; [|split]]|].
   - rewrite map_map.
     pose proof (al_nodup_keys t d HI (ids_uniq _ IO)) as ND.
     apply nodup_map_inj with (f := n_key); auto.
@@ -169,6 +170,7 @@ Proof.
     unfold kv_of in E. rewrite K, V in E. inversion E; subst. exact D.
   - intros k v Hk D. destruct (al_complete t d k v HI Hk D) as [i [Hi [K V]]].
     apply in_map_iff. exists i. split; auto. unfold kv_of. rewrite K, V. reflexivity.
+  - apply (visit_keys_sorted t d HI).
   - rewrite map_map. apply map_ext_in. intros i Hi. destruct (S i Hi) as [k [v [K [V _]]]].
     unfold vis, visit_of, kv_of. rewrite K, V. reflexivity.
 Qed.
